@@ -32,30 +32,44 @@ type zzTplAttr struct {
 	selector   bool   // nodeSelector {k: v}
 	affinityOp string // "" none, In, NotIn, Exists, DoesNotExist (on key k, values [v])
 	tolerates  string // "" none, "k" = tolerates taint key k (Exists, any effect)
+	// fieldShape: what else the required node affinity contains besides the expression on key k:
+	// "" nothing; "and-name-in" / "and-name-notin": the same term also has matchFields
+	// metadata.name In / NotIn [node0]; "or-name-in": a second (ORed) term matchFields metadata.name In [node0]
+	fieldShape string
 }
 
 // zzEligible: reference predicate written from the statement of C01.
-func zzEligible(n zzNodeAttr, t zzTplAttr) bool {
+func zzEligible(n zzNodeAttr, t zzTplAttr, nodeName string) bool {
 	if t.selector && n.label != "v" {
 		return false
 	}
+	// first term: every expression and every field of a term must match
+	term1 := true
 	switch t.affinityOp {
 	case "In":
-		if n.label != "v" {
-			return false
-		}
+		term1 = n.label == "v"
 	case "NotIn":
-		if n.label == "v" {
-			return false
-		}
+		term1 = n.label != "v"
 	case "Exists":
-		if n.label == "" {
-			return false
-		}
+		term1 = n.label != ""
 	case "DoesNotExist":
-		if n.label != "" {
-			return false
+		term1 = n.label == ""
+	}
+	switch t.fieldShape {
+	case "and-name-in":
+		term1 = term1 && nodeName == zzNodeName(0)
+	case "and-name-notin":
+		term1 = term1 && nodeName != zzNodeName(0)
+	case "or-name-in":
+		// terms are ORed (without an expression there is only the by-name term)
+		if t.affinityOp == "" {
+			term1 = nodeName == zzNodeName(0)
+		} else {
+			term1 = term1 || nodeName == zzNodeName(0)
 		}
+	}
+	if (t.affinityOp != "" || t.fieldShape != "") && !term1 {
+		return false
 	}
 	if n.taint && !zzTaintTolerated(n.tKey, n.effect, t) {
 		return false
@@ -84,14 +98,31 @@ func zzTemplateFor(tpl zzTplAttr) *datadoghqv1alpha1.ExtendedDaemonSetReplicaSet
 	if tpl.selector {
 		rs.Spec.Template.Spec.NodeSelector = map[string]string{zzLabelKey: "v"}
 	}
-	if tpl.affinityOp != "" {
-		req := corev1.NodeSelectorRequirement{Key: zzLabelKey, Operator: corev1.NodeSelectorOperator(tpl.affinityOp)}
-		if tpl.affinityOp == "In" || tpl.affinityOp == "NotIn" {
-			req.Values = []string{"v"}
+	if tpl.affinityOp != "" || tpl.fieldShape != "" {
+		term := corev1.NodeSelectorTerm{}
+		if tpl.affinityOp != "" {
+			req := corev1.NodeSelectorRequirement{Key: zzLabelKey, Operator: corev1.NodeSelectorOperator(tpl.affinityOp)}
+			if tpl.affinityOp == "In" || tpl.affinityOp == "NotIn" {
+				req.Values = []string{"v"}
+			}
+			term.MatchExpressions = []corev1.NodeSelectorRequirement{req}
 		}
-		rs.Spec.Template.Spec.Affinity = &corev1.Affinity{NodeAffinity: &corev1.NodeAffinity{RequiredDuringSchedulingIgnoredDuringExecution: &corev1.NodeSelector{
-			NodeSelectorTerms: []corev1.NodeSelectorTerm{{MatchExpressions: []corev1.NodeSelectorRequirement{req}}},
-		}}}
+		terms := []corev1.NodeSelectorTerm{term}
+		byName := func(op corev1.NodeSelectorOperator) []corev1.NodeSelectorRequirement {
+			return []corev1.NodeSelectorRequirement{{Key: "metadata.name", Operator: op, Values: []string{zzNodeName(0)}}}
+		}
+		switch tpl.fieldShape {
+		case "and-name-in":
+			terms[0].MatchFields = byName(corev1.NodeSelectorOpIn)
+		case "and-name-notin":
+			terms[0].MatchFields = byName(corev1.NodeSelectorOpNotIn)
+		case "or-name-in":
+			if tpl.affinityOp == "" {
+				terms = nil // only the by-name term
+			}
+			terms = append(terms, corev1.NodeSelectorTerm{MatchFields: byName(corev1.NodeSelectorOpIn)})
+		}
+		rs.Spec.Template.Spec.Affinity = &corev1.Affinity{NodeAffinity: &corev1.NodeAffinity{RequiredDuringSchedulingIgnoredDuringExecution: &corev1.NodeSelector{NodeSelectorTerms: terms}}}
 	}
 	if tpl.tolerates != "" {
 		rs.Spec.Template.Spec.Tolerations = []corev1.Toleration{{Key: zzLabelKey, Operator: corev1.TolerationOpExists}}
@@ -162,6 +193,14 @@ func zzPickTplAttr() zzTplAttr {
 	if nondet.Bool("tpl.tolerates") {
 		tpl.tolerates = zzLabelKey
 	}
+	switch nondet.String("tpl.affinityFields", "", "and-name-in", "and-name-notin", "or-name-in") {
+	case "and-name-in":
+		tpl.fieldShape = "and-name-in"
+	case "and-name-notin":
+		tpl.fieldShape = "and-name-notin"
+	case "or-name-in":
+		tpl.fieldShape = "or-name-in"
+	}
 	return tpl
 }
 
@@ -181,8 +220,8 @@ func ZZ_C01_eligibility() {
 	_, podsByNode, toDelete, unscheduled := r.FilterAndMapPodsByNode(logr.Logger{}, rs, nodeList, &corev1.PodList{}, nil)
 	_, m0 := podsByNode[nodeList.Items[0]]
 	_, m1 := podsByNode[nodeList.Items[1]]
-	nondet.Assert("C01.eligible.node0", m0 == zzEligible(a, tpl))
-	nondet.Assert("C01.eligible.node1", m1 == zzEligible(b, tpl))
+	nondet.Assert("C01.eligible.node0", m0 == zzEligible(a, tpl, zzNodeName(0)))
+	nondet.Assert("C01.eligible.node1", m1 == zzEligible(b, tpl, zzNodeName(1)))
 	nondet.Assert("C01.eligible.nothing-else", len(toDelete) == 0 && len(unscheduled) == 0 && podsByNode[nodeList.Items[0]] == nil)
 	nondet.Observe("mapped0", m0)
 	nondet.Reach("C01.eligible.by-toleration", m0 && a.taint && a.effect == corev1.TaintEffectNoSchedule)
@@ -190,6 +229,8 @@ func ZZ_C01_eligibility() {
 	nondet.Reach("C01.eligible.rejected-taint", !m0 && a.taint && !tpl.selector && tpl.affinityOp == "")
 	nondet.Reach("C01.eligible.rejected-selector", !m0 && tpl.selector && !a.taint)
 	nondet.Reach("C01.eligible.rejected-affinity", !m0 && !tpl.selector && !a.taint && tpl.affinityOp != "")
+	nondet.Reach("C01.eligible.rejected-by-name-field", !m0 && !tpl.selector && !a.taint && tpl.fieldShape == "and-name-notin" && tpl.affinityOp == "Exists" && a.label != "")
+	nondet.Reach("C01.eligible.accepted-by-second-term", m0 && tpl.fieldShape == "or-name-in" && tpl.affinityOp == "In" && a.label != "v")
 	nondet.Reach("C01.eligible.two-taints-one-tolerated", !m0 && a.taint2 && a.tKey == "node.kubernetes.io/not-ready")
 	nondet.Reach("C01.eligible.prefer-noschedule-ok", m0 && a.taint && a.effect == corev1.TaintEffectPreferNoSchedule && a.tKey == zzLabelKey && tpl.tolerates == "")
 }
@@ -277,7 +318,7 @@ func ZZ_C01_filterMap() {
 	// (a) keys of podsByNode = listed, eligible, not ignored nodes
 	for i, ni := range nodeList.Items {
 		_, mapped := podsByNode[ni]
-		want := zzEligible(attrs[i], tpl) && !ignored[ni.Node.Name]
+		want := zzEligible(attrs[i], tpl, ni.Node.Name) && !ignored[ni.Node.Name]
 		nondet.Assert("C01.map.keys", mapped == want)
 		nondet.Assert("C01.map.nodesByName", nodesByName[ni.Node.Name] == ni)
 	}
@@ -303,7 +344,7 @@ func ZZ_C01_filterMap() {
 			continue
 		}
 		i := nodeIdx(pa.node)
-		mappedNode := i >= 0 && zzEligible(attrs[i], tpl) && !ignored[pa.node]
+		mappedNode := i >= 0 && zzEligible(attrs[i], tpl, pa.node) && !ignored[pa.node]
 		if !mappedNode && pa.phase != corev1.PodUnknown {
 			// (e) pods on nodes that stopped being eligible (or vanished) are deleted unless already
 			// terminating; pods on ignored nodes belong to the other replica set's scope
